@@ -143,4 +143,5 @@ func (fc *FnCtx) havocKeys(st *State, keys []any) {
 		}
 		st.vars[k] = nv
 	}
+	fc.structValsAllocated(st)
 }
